@@ -27,10 +27,10 @@ CHECKS = {
    technique="deterministic simulation: seeded call histories against SimDisk with a reference framing model checked after every step"),
  "C16": dict(
    category="fault_enumeration",
-   text="For each seeded history (NewEncoderFor+Encode/Flush, or NewFileWriter+WriteHeader+WriteBlock*) the fault-free run gives the reference stream F and W writes; then EVERY write index k is failed in four variants (error; short write of 1, len/2, len-1 bytes) with the sync marker pinned through crypto/rand.Reader. Required: no panic, the call that issued write k returns an error wrapping the injected one, bytes accepted are byte-for-byte a prefix of F.",
+   text="For each seeded history (NewEncoderFor+Encode/Flush, or NewFileWriter+WriteHeader+WriteBlock*) the fault-free run gives the reference stream F and W writes; then EVERY write index k is failed in five variants (error; short write of 1, len/2, len-1 bytes; error after all bytes were taken) with the sync marker pinned through crypto/rand.Reader. Required: no panic, the call that issued write k returns an error wrapping the injected one, bytes accepted are byte-for-byte a prefix of F.",
    design_ref="§5 C16",
    note="Histories are a seeded sample; per history the fault enumeration over k is complete. Record types without multi-entry maps only. Behaviour after the first failed call is not judged.",
-   technique="deterministic simulation: SimDisk write-fault enumeration (every write index x 4 variants) against the fault-free run of the same history"),
+   technique="deterministic simulation: SimDisk write-fault enumeration (every write index x 5 variants) against the fault-free run of the same history"),
  "C10": dict(
    category="exploration",
    text="1..3 ReadFile tasks run as coroutines over their own multi-block files (3 codecs, both writers) interleaved by the plan, plus a direct ReadBuf/ResourceBank user; the bank pool is the simulator's (hooks): each bank request gets the oldest / newest / another free bank or a fresh one, as the plan says. After EVERY operation: every record whose bank is open equals the deep copy taken at delivery and equals the same record read with fresh banks only; every Alloc is all-zero on return although the previous owner poisoned the memory before closing; all live allocations and interned strings are pairwise disjoint; no bank is issued to two live users.",
